@@ -11,7 +11,7 @@
  *      -> <id> OK <framehex> <calls>   calls = consumed:produced:ret(or E<name>);...   (stops at first error)
  *  D <id> <path> <flags> <dicthex|-> <framehex|-> <capacity>              -> <id> OK <hex> [extra] | <id> ERR <name>
  *      path    : oneshot | dctx | usingDict | ddict | ddictwarm | ddictref | loaddict | refprefix | multiddict | multiddict2
- *                | stream:<inseg>:<outseg> | stableout:<inseg> | continue | inplace | block
+ *                | stream:<inseg>:<outseg> | stableout:<inseg> | continue | inplace | block | nulldst (empty content only) | reuse
  *      flags   : "-" or id:value,... (ZSTD_DCtx_setParameter)
  *  I <id> <framehex>       inspectors -> <id> OK fcs=<..> bound=<..> csize=<..> margin=<..> did=<..> dsize=<..>
  */
@@ -277,6 +277,37 @@ static void cmd_D(char** t) {
                 r = ZSTD_decompressDCtx(dc, buf, total, buf + total - fn, fn);
                 if (!ZSTD_isError(r)) { if (r > cap) r = (size_t)-ZSTD_error_dstSize_tooSmall; else memcpy(out, buf, r); }
                 produced = r; free(buf); } } }
+    } else if (!strcmp(path, "reuse")) {
+        /* (C04 round 2) one DCtx with a history: a streaming decode abandoned half way through the frame, a single-call decode of the
+         * whole frame, ZSTD_DCtx_reset(session_only), a complete streaming decode (7-byte input segments), a buffer-less decode:
+         * the three complete decodes must agree */
+        unsigned char* o2 = (unsigned char*)malloc(cap + 1); unsigned char* o3 = (unsigned char*)malloc(cap + 1);
+        size_t p2 = 0; char ex2[1024];
+        {   ZSTD_inBuffer in; ZSTD_outBuffer ob; in.src = f; in.size = fn / 2; in.pos = 0; ob.dst = o2; ob.size = cap / 2; ob.pos = 0;
+            (void)ZSTD_decompressStream(dc, &ob, &in); }
+        r = ZSTD_decompressDCtx(dc, out, cap, f, fn); produced = r;
+        if (!ZSTD_isError(r)) { size_t e = ZSTD_DCtx_reset(dc, ZSTD_reset_session_only); if (ZSTD_isError(e)) r = e; }
+        if (!ZSTD_isError(r)) { size_t e = stream_decode(dc, f, fn, o2, cap, 7, 0, 0, ex2, &p2);
+            if (ZSTD_isError(e)) r = e; else if (p2 != produced || memcmp(o2, out, produced)) r = (size_t)-ZSTD_error_GENERIC; }
+        if (!ZSTD_isError(r)) {   /* buffer-less on the same context, right after the streaming session */
+            size_t ipos = 0, opos = 0; size_t e = ZSTD_decompressBegin(dc);
+            while (!ZSTD_isError(e)) { size_t need = ZSTD_nextSrcSizeToDecompress(dc);
+                if (need == 0) { if (ipos == fn) break; e = ZSTD_decompressBegin(dc); continue; }
+                if (need > fn - ipos) { e = (size_t)-ZSTD_error_srcSize_wrong; break; }
+                e = ZSTD_decompressContinue(dc, o3 + opos, cap - opos, f + ipos, need); if (ZSTD_isError(e)) break; ipos += need; opos += e; }
+            if (ZSTD_isError(e)) r = e; else if (opos != produced || memcmp(o3, out, produced)) r = (size_t)-ZSTD_error_GENERIC; }
+        free(o2); free(o3);
+    } else if (!strcmp(path, "nulldst")) {
+        /* (C04 round 2) destination NULL with capacity 0: legal for a frame whose content is empty; one-shot, then streaming */
+        r = ZSTD_decompressDCtx(dc, NULL, 0, f, fn); produced = 0;
+        if (!ZSTD_isError(r) && r != 0) r = (size_t)-ZSTD_error_GENERIC;
+        if (!ZSTD_isError(r)) {
+            ZSTD_inBuffer in; ZSTD_outBuffer ob; size_t r2 = 1; int guard = 0;
+            in.src = f; in.size = fn; in.pos = 0; ob.dst = NULL; ob.size = 0; ob.pos = 0;
+            while (in.pos < in.size && guard++ < 100000) { size_t const before = in.pos; r2 = ZSTD_decompressStream(dc, &ob, &in);
+                if (ZSTD_isError(r2) || in.pos == before) break; }
+            if (ZSTD_isError(r2)) r = r2; else if (r2 != 0 || in.pos != in.size) r = (size_t)-ZSTD_error_srcSize_wrong;
+        }
     } else r = (size_t)-ZSTD_error_GENERIC;
     if (ZSTD_isError(r)) perr(id, r);
     else { printf("%s OK ", id); puthex(out, produced); if (extra[0]) printf(" ends=%s", extra); putchar('\n'); }
